@@ -27,7 +27,16 @@ def _observe_ctor(m, kind, q):
     try:
         with warnings.catch_warnings():
             warnings.simplefilter("ignore")
-            g = AngularGrid(degree=q, method=m) if kind == "degree" else AngularGrid(size=q, method=m)
+            # the request in the forms a caller may hold it: Python int, numpy integer, and (size requests) together
+            # with a degree that the documentation says is then ignored - even one that could not be served
+            v = q if q % 3 == 0 else (np.int64(q) if q % 3 == 1 else np.int32(q))
+            spell = m if q % 5 else m.upper()
+            if kind == "degree":
+                g = AngularGrid(degree=v, method=spell, cache=bool(q % 2))
+            elif q % 4 == 2:
+                g = AngularGrid(degree=(q * 7) % 300, size=v, method=spell)
+            else:
+                g = AngularGrid(size=v, method=spell, cache=bool(q % 2))
         d, s = int(g.degree), int(g.size)
         if len(g.points) != s or len(g.weights) != s:
             return ("ctor", d, -9)  # advertised size is not the number of points
@@ -183,6 +192,23 @@ def run(tier: str) -> int:
                     except Exception as e:
                         rep.violation(f"pruned:{m}:{kind}={q}", f"AtomGrid.from_pruned raised {type(e).__name__}: {e}")
 
+        # molecular grids of a given angular size (Lebedev only: from_size has no method argument): every shell of
+        # every atom carries the grid the rule prescribes for that size
+        from grid.becke import BeckeWeights
+        from grid.molgrid import MolGrid
+        t = tabs["lebedev"]
+        for _ in range(6 if tier == "quick" else 60):
+            q = rng.randint(0, 400)
+            rg = OneDGrid(np.array([0.3, 0.9, 2.0]), np.ones(3), (0, np.inf))
+            try:
+                mg = MolGrid.from_size(np.array([1, 8]), np.array([[0.0, 0.0, 0.0], [0.0, 0.0, 2.0]]), np.int64(q) if q % 2 else q,
+                                       rg, BeckeWeights(order=3), rotate=0, store=True)
+                for ag in mg.atgrids:
+                    for d, sz in zip(np.asarray(ag.degrees).tolist(), np.diff(np.asarray(ag.indices)).tolist()):
+                        put("lebedev", "size", q, ("mol", d, sz))
+            except Exception as e:
+                rep.violation(f"mol:lebedev:size={q}", f"MolGrid.from_size raised {type(e).__name__}: {e}")
+
         # preset atomic grids: the shipped preset tables ask, per radial sector, for a number of points; each shell
         # must carry the grid the rule prescribes for that size IN THE REQUESTED METHOD.  The radial points are put
         # at the midpoints of the sectors (one below the first and one above the last boundary), so which sector a
@@ -270,3 +296,31 @@ def replay(path: str) -> int:
         return 0 if [o[1], o[2]] == c["spec"] else 1
     print("replay: model-level violation; rerun ./check C12")
     return run("quick")
+
+
+def selftest(tier: str = "quick") -> int:
+    """In-process mutants of grid.angular / grid.atomgrid (the files in /repo are never touched)."""
+    from ..mutants import run_mutants, src
+    A, T = "grid.angular", "grid.atomgrid"
+    rb = [(T, "AngularGrid")]
+    mutants = [
+        ("degree-rounds-down-to-the-previous-supported", src(A, "ang_degs[bisect_left(ang_degs, degree)]",
+                                                             "ang_degs[bisect_left(ang_degs, degree) - 1]", rb)),
+        ("size-skips-one-supported-grid", src(A, "ang_npts[bisect_left(ang_npts, size)]",
+                                              "ang_npts[min(bisect_left(ang_npts, size) + 1, len(ang_npts) - 1)]", rb)),
+        ("degree-above-maximum-not-rejected", src(A, "if degree < 0 or degree > max_degree:", "if degree < 0 or degree > max_degree + 1:", rb)),
+        ("size-above-maximum-served-by-largest", src(A, "            if size < 0 or size > max_size:\n",
+                                                     "            size = min(size, max_size)\n            if size < 0 or size > max_size:\n", rb)),
+        ("converter-writes-degree-for-first-match-only", src(A, "degrees[np.where(sizes == size)] = deg",
+                                                             "degrees[np.where(sizes == size)[0][:1]] = deg", rb)),
+        ("converter-always-lebedev", src(A, "deg = AngularGrid._get_degree_and_size(degree=None, size=size, method=method)[0]",
+                                         "deg = AngularGrid._get_degree_and_size(degree=None, size=size, method='lebedev')[0]", rb)),
+        ("size-request-with-degree-uses-the-degree", src(A, "            degree = None\n\n        # map degree and size", "            pass\n\n        # map degree and size", rb)),
+        ("atom-sizes-converted-with-lebedev-table", src(T, "degrees = AngularGrid.convert_angular_sizes_to_degrees(sizes, method=method)",
+                                                        "degrees = AngularGrid.convert_angular_sizes_to_degrees(sizes, method='lebedev')")),
+        ("preset-sizes-converted-with-lebedev-table", src(T, "degs = AngularGrid.convert_angular_sizes_to_degrees(npt, method=method)",
+                                                          "degs = AngularGrid.convert_angular_sizes_to_degrees(npt, method='lebedev')")),
+        ("pruned-sizes-converted-with-lebedev-table", src(T, "d_sectors = AngularGrid.convert_angular_sizes_to_degrees(s_sectors, method)",
+                                                          "d_sectors = AngularGrid.convert_angular_sizes_to_degrees(s_sectors, 'lebedev')")),
+    ]
+    return run_mutants(PROP, run, tier, mutants)
